@@ -115,7 +115,7 @@ class SimNet:
         d1 = self.s_delay.ticks(self.max_delay_ticks)
         fault = None
         if self.faults_enabled:
-            for kind in ('drop_request', 'drop_response', 'duplicate', 'cancel_handler'):
+            for kind in ('drop_request', 'drop_response', 'duplicate', 'cancel_handler', 'slow_request'):
                 r = self.rates.get(kind, 0.0)
                 if r and self.s_fault.chance(r):
                     fault = kind
@@ -138,7 +138,18 @@ class SimNet:
             raise aiohttp.ServerDisconnectedError()
         svc.n_requests += 1
 
+        slow = 0.0
+        if fault == 'slow_request':
+            # the request has left the client and sits in the network / accept queue: it is delivered late, whether
+            # or not the client is still waiting for it
+            ctx.fault('net.slow_request')
+            slow = self.s_delay.rint(200, 6000) / 1024
+
         async def serve():
+            if slow:
+                await asyncio.sleep(slow)
+                if not svc.up or svc.handler is None:
+                    raise aiohttp.ServerDisconnectedError()
             return await svc.handler(method, path_qs, dict(headers or {}), body)
 
         task = loop.create_task(serve(), context=svc.context.copy() if svc.context is not None else None)
